@@ -198,6 +198,41 @@ func pathShape(steps []pstep) string {
 	return "child-only"
 }
 
+// expectedPathString renders the steps the way PathString renders a node chain; ok is false for
+// names PathString does not render unambiguously (anything but letters, digits and '_').
+func expectedPathString(steps []pstep) (string, bool) {
+	var sb strings.Builder
+	for si, st := range steps {
+		switch st.kind {
+		case 'c', 'r':
+			for _, ch := range st.name {
+				if !(ch == '_' || ch >= '0' && ch <= '9' || ch >= 'a' && ch <= 'z' || ch >= 'A' && ch <= 'Z') {
+					return "", false
+				}
+			}
+			if st.name == "" {
+				return "", false
+			}
+			if st.kind == 'r' {
+				sb.WriteString("..")
+			} else {
+				sb.WriteString(".")
+			}
+			sb.WriteString(st.name)
+			if st.kind == 'r' && si == len(steps)-1 {
+				// a recursive node always carries a member selector for its name as continuation;
+				// when nothing follows, that selector is rendered as well
+				sb.WriteString("." + st.name)
+			}
+		case 'i':
+			fmt.Fprintf(&sb, "[%d]", st.idx)
+		case 'a':
+			sb.WriteString("[*]")
+		}
+	}
+	return sb.String(), sb.Len() > 0
+}
+
 func extractClass(parts [][]byte, err error) string {
 	if err != nil {
 		return "error"
@@ -377,6 +412,14 @@ func init() {
 					continue
 				}
 				shape := pathShape(steps)
+				// the compiled path has one node per step, in order (PathString renders the node
+				// chain): a step lost or re-linked by the builder shows here whatever the evaluators do
+				if want, ok := expectedPathString(steps); ok {
+					if got := p.PathString(); got != want {
+						c.Violate(rt.Violation{Monitor: "path-parse", Entry: "CreatePath", Kind: "compiled-structure-differs", Ctx: shape,
+							Detail: fmt.Sprintf("path %s compiles to %q, its steps are %q", ps, got, want), Input: ps, Sub: k})
+					}
+				}
 				var docs []string
 				for i := 0; i < 10; i++ {
 					docs = append(docs, genPathDoc(r, 4))
@@ -392,7 +435,7 @@ func init() {
 					ws := []string{" ", "\n", "\t", "\r\n ", ""}[(j+k+c.Idx)%5]
 					docs = append(docs, emptyAtDepth(steps, j, "{", ws, "}"), emptyAtDepth(steps, j, "[", ws, "]"))
 				}
-				docs = append(docs, tailoredDoc(r, steps, 2))
+				docs = append(docs, tailoredDoc(r, steps, 2), tailoredDoc(r, steps, 3))
 				if arrayOnly {
 					docs = append(docs, `[[1],[ ],[2,[\n],[ 3 ]]]`, `[ ]`, `[[ ]]`, `[[],[ ]]`, `[[[]],[[ ]],[[\t],[4]]]`, ` [ [ 1 , 2 ] , [ ] , [ [ ] , [ 5 ] ] ] `, `[[1,2],[],[[],[5]]]`)
 				}
@@ -635,6 +678,10 @@ func tailoredDoc(r *rand.Rand, steps []pstep, variant int) string {
 			cur = "{" + inner + "}"
 			if st.kind == 'r' && variant == 1 {
 				cur = `{"w":[` + cur + `,{"w2":` + cur + `}]}`
+			}
+			if st.kind == 'r' && variant == 3 {
+				// the name occurs once, two object levels below where the descent starts
+				cur = `{"u0":1,"w0":{"w1":` + cur + `,"u1":"s"}}`
 			}
 		case 'i':
 			elems := make([]string, st.idx+1+variant)
